@@ -60,9 +60,23 @@ def main(argv: list[str]) -> int:
                 cov.start()
             except Exception:  # noqa: BLE001
                 cov = None
+        import signal
+
+        def _budget(*_):
+            raise framework.CaseBudgetExceeded
+
         try:
             framework.run_corpus(ctx)
-            getattr(props, f"check_{pid}")(ctx)
+            old_prof = signal.signal(signal.SIGPROF, _budget)
+            signal.setitimer(signal.ITIMER_PROF, 4 * ctx.CASE_CPU_BUDGET)
+            try:
+                getattr(props, f"check_{pid}")(ctx)
+            except framework.CaseBudgetExceeded:
+                ctx.fail(f"the code under test did not finish one case within {ctx.CASE_CPU_BUDGET:.0f} s of CPU (it hangs, spins or has become "
+                         "super-linear); the rest of the exploration was abandoned", dict(case=getattr(ctx, "last_case", None)))
+            finally:
+                signal.setitimer(signal.ITIMER_PROF, 0)
+                signal.signal(signal.SIGPROF, old_prof)
         finally:
             if cov is not None:
                 cov.stop()
